@@ -27,6 +27,7 @@ class LifecycleMonitor(Monitor):
     def post_recv(self, conn, hdr, datagram, pre, result):
         if result is True and conn.isServer:
             self.last_accept[id(conn)] = self.w.k.now
+            self.accept_log[id(conn)].append(self.w.k.now)
             if hdr.pkt_type.value == PacketType.CHALLENGE_RESP.value:
                 self.challenge_ok.setdefault(id(conn), self.w.k.now)
 
@@ -57,7 +58,11 @@ class C10(UdpCheck):
         plan = []
         for c in range(n):
             t = 0.05 + rng.random() * 1.5
-            plan.append({"op": "connect", "c": c, "t": round(t, 4), "cb": rng.random() < 0.5})
+            op0 = {"op": "connect", "c": c, "t": round(t, 4), "cb": True}
+            if rng.random() < 0.4:      # the client application sends right from its connect callback
+                op0["on_connect"] = [{"len": rng.choice([8, 30, 900, 2500]), "retry": rng.choice([0, 1, -1]), "cb": False,
+                                      "api": "send", "kind": 0} for _ in range(rng.choice([1, 3]))]
+            plan.append(op0)
             alive = True
             while t < dur - 1.0:
                 t += 0.3 + rng.random() * 3.0
@@ -209,7 +214,8 @@ class C10(UdpCheck):
             t_conn = evs[0][0]
             # connect only after a challenge response was accepted by this connection
             tc = mon.challenge_ok.get(id(conn))
-            if tc is None or tc > t_conn + 1e-9:
+            # (the acceptance is logged when _recv_datagram returns, the connect event fires inside that very call)
+            if tc is None or tc > t_conn + 0.002:
                 vs.append({"kind": "connect_without_accepted_challenge_response", "key": "", "detail": {"addr": conn.addr}})
             # only that client's messages: sent by the incarnation that holds the same session key
             inc = key_of_inc.get(conn.session_key_bytes)
@@ -233,9 +239,11 @@ class C10(UdpCheck):
                     continue
                 # accepted but never dispatched: only excusable right before the connection went away / the run ended,
                 # or when no later datagram triggered the dispatch (messages that arrived with the challenge response)
-                later_traffic = mon.last_accept.get(id(conn), 0.0) > t_a + 3 * tick
-                gone_soon = (t_disc is not None and t_disc - t_a < 3 * tick + 0.05) or (w.shutdown_t is not None and w.shutdown_t - t_a < 3 * tick + 0.05) \
-                    or w.k.now - t_a < 3 * tick + 0.05
+                # a later datagram of this client, processed in an earlier tick than the one that ended the connection
+                # (a disconnect - by the peer, the application or shutdown - discards what was not dispatched yet)
+                horizon = min([x for x in (t_disc, w.shutdown_t, w.k.now) if x is not None]) - 2 * tick - interval - 0.01
+                later_traffic = any(t_a + 0.004 < t_l < horizon for t_l in mon.accept_log.get(id(conn), ()))   # (not the datagram that carried it)
+                gone_soon = False
                 if later_traffic and not gone_soon:
                     missing.append((round(t_a, 4), x))
             if missing:
